@@ -52,7 +52,7 @@ func leInt(b []byte) *big.Int {
 
 // member decides, independently of kyber, whether the accepted input denotes
 // a member of the set the group promises to validate. "" = member.
-func member(g *groups.G, in []byte, pt kyber.Point) string {
+func Member(g *groups.G, in []byte, pt kyber.Point) string {
 	L := g.Group.PointLen()
 	switch {
 	case g.Family == "ed25519":
@@ -301,7 +301,7 @@ func runPoints(c *vf.Check, g *groups.G) {
 		// the model must accept the generators (self-test of the transcribed parameters)
 		// (only the base point: the other generators come from Pick/Hash/Embed, which C17 judges;
 		// if they are not members the decoder is asked about them below like any other input)
-		if why := member(g, fmod.Enc(m.Gens[0]), m.Gens[0]); why != "" {
+		if why := Member(g, fmod.Enc(m.Gens[0]), m.Gens[0]); why != "" {
 			c.Broken("%s: the independent membership model rejects the base point: %s", g.Name, why)
 		}
 	})
@@ -329,7 +329,7 @@ func runPoints(c *vf.Check, g *groups.G) {
 			}
 			c.Class(g.Name+"/accepted", func() any { return in.name + " " + hex.EncodeToString(hd(in.b)) })
 			var why string
-			if !try(x, pk+"/member-panic", "membership follow-up on accepted "+in.name, func() { why = member(g, in.b, p) }) {
+			if !try(x, pk+"/member-panic", "membership follow-up on accepted "+in.name, func() { why = Member(g, in.b, p) }) {
 				return
 			}
 			if why != "" {
